@@ -3,6 +3,7 @@
 package centrifuge
 
 import (
+	"os"
 	"bytes"
 	"context"
 	"fmt"
@@ -124,7 +125,7 @@ func vC09Alphabet(proto ProtocolType, entry string, nIDs uint32) []vC09Letter {
 			l = append(l, vC09Letter{method: m, id: id})
 		}
 	}
-	if entry != "cmd" {
+	if entry != "cmd" && entry != "cmdi" {
 		full := vC09Encode(proto, vC09Letter{method: "subscribe", id: 1}.command())
 		garbage := []byte("\x00\x01garbage")
 		if proto == ProtocolTypeProtobuf {
@@ -406,7 +407,7 @@ func (e *vC09Env) runSeq(proto ProtocolType, entry string, seq []vC09Letter) (op
 	}
 
 	feed := func(frame []byte, c *protocol.Command) bool {
-		if entry == "cmd" {
+		if entry == "cmd" || entry == "cmdi" {
 			return cl.c.HandleCommand(c, 0)
 		}
 		return HandleReadFrame(cl.c, bytes.NewReader(frame), 65536)
@@ -503,7 +504,9 @@ func (e *vC09Env) runSeq(proto ProtocolType, entry string, seq []vC09Letter) (op
 		check(i, l, frames0, handlers0, false)
 		advance(l)
 		steps = append(steps, fmt.Sprintf("%v/%d", t.closed, len(t.frames)-frames0))
-		if !proceed || t.closed {
+		// entry "cmdi": a transport that ignores the reader verdict (the emulation, SSE and HTTP-stream
+		// handlers do) keeps feeding commands as long as the connection has not been closed
+		if (!proceed && entry != "cmdi") || t.closed {
 			stopped = true
 			open = false
 			if i != len(seq)-1 {
@@ -514,6 +517,9 @@ func (e *vC09Env) runSeq(proto ProtocolType, entry string, seq []vC09Letter) (op
 	}
 	if !stopped {
 		open = true
+	}
+	if os.Getenv("VERIF_DEBUG_SEQ") != "" && len(seq) > 0 && seq[0].method == os.Getenv("VERIF_DEBUG_SEQ") {
+		fmt.Fprintf(os.Stderr, "DEBUG %s open=%v closed=%v/%d steps=%v handlers=%v frames=%d\n", replay, open, t.closed, t.closeDisc.Code, steps, e.handlers, len(t.frames))
 	}
 	return open, fmt.Sprintf("closed=%v/%d steps=%v handlers=%d", t.closed, t.closeDisc.Code, steps, len(e.handlers))
 }
@@ -560,6 +566,12 @@ func vC09Variants(tier string) []vsched.Variant {
 			}
 		}
 	}
+	// the reader verdict ignored (HandleCommand returned false but the connection was not closed)
+	vs = append(vs, vsched.Variant{Name: "json-cmdi-ok-len3-ids3", Bound: 0, Shards: 2, MaxSteps: 1 << 30, BudgetS: 280})
+	if tier == "thorough" {
+		vs = append(vs, vsched.Variant{Name: "json-cmdi-err-len3-ids3", Bound: 0, Shards: 2, MaxSteps: 1 << 30, BudgetS: 280},
+			vsched.Variant{Name: "protobuf-cmdi-ok-len4-ids2", Bound: 0, Shards: 4, MaxSteps: 1 << 30, BudgetS: 280})
+	}
 	if tier == "thorough" {
 		vs = append(vs, vsched.Variant{Name: "async-ok-m7", Bound: 1, Shards: 8, MaxSteps: 1 << 22, BudgetS: 280},
 			vsched.Variant{Name: "async-err-m7", Bound: 1, Shards: 8, MaxSteps: 1 << 22, BudgetS: 280},
@@ -577,7 +589,7 @@ var vC09AsyncMethods = []string{"rpc", "subscribe", "publish", "history", "prese
 func init() {
 	vsched.Register(&vsched.Harness{
 		Name: "cmdseq", Props: []string{"C09"}, Kind: "sched",
-		Doc: "all command sequences of length <= 3 (quick) / 4 (thorough) over 16 methods (incl. a connect the application refuses and a connect that fails in a connect-time server-side subscription) x ids {0,1,2} (+ truncated / garbage / empty frames) through HandleCommand, HandleReadFrame (one command per frame, whole sequence in one frame) in real JSON and Protobuf encodings, handlers answering ok / *Error / *Disconnect; async-*: two commands whose handler callbacks complete on separate threads, all interleavings within the deviation bound; oracle: authentication gate (bad-request close, zero handler invocations), exactly one reply per id unless closed, pong without ping closes",
+		Doc: "all command sequences of length <= 3 (quick) / 4 (thorough) over 16 methods (incl. a connect the application refuses and a connect that fails in a connect-time server-side subscription) x ids {0,1,2} (+ truncated / garbage / empty frames) through HandleCommand (cmdi: the reader verdict ignored, commands keep coming until the connection is closed, as the emulation / SSE / HTTP-stream handlers do), HandleReadFrame (one command per frame, whole sequence in one frame) in real JSON and Protobuf encodings, handlers answering ok / *Error / *Disconnect; async-*: two commands whose handler callbacks complete on separate threads, all interleavings within the deviation bound; oracle: authentication gate (bad-request close, zero handler invocations), exactly one reply per id unless closed, pong without ping closes",
 		Variants: vC09Variants,
 		Sched: func(v vsched.Variant) func() {
 			if strings.HasPrefix(v.Name, "async-") {
